@@ -15,6 +15,17 @@ core.use_repo()
 import serial  # noqa: E402
 
 CONNECT = ("refuse", "timeout", "ok")
+# node 0 (the gateway device itself) presents a local sensor and announces smart sleep (2.2: pre-sleep notification)
+NODE0_SLEEPS = b"0;255;0;0;18;2.2\n0;1;0;0;3;light\n0;255;3;0;32;500\n"
+
+
+def _connect_failure(rng):
+    """What a failing TCP dial raises: refused / unreachable (errno set), a resolver failure (socket.gaierror, negative
+    errno), or asyncio's / create_connection's aggregate OSError without an errno."""
+    return rng.choice([ConnectionRefusedError(111, "Connection refused"), ConnectionRefusedError(111, "Connection refused"),
+                       OSError(113, "No route to host"), _socket.gaierror(-3, "Temporary failure in name resolution"),
+                       _socket.gaierror(-2, "Name or service not known"), OSError("Multiple exceptions: [Errno 111] Connect call failed"),
+                       TimeoutError(110, "Connection timed out")])
 REQ = b"1;255;3;0;6;0\n"      # a config request: must be answered with one write
 
 
@@ -72,7 +83,7 @@ def run_threaded(kind, seed, script, rt=3.0, answer=0.1, hold=0.0):
             sim.ev("CONNECT-BEGIN", o)
             if o == "refuse":
                 sim.ev("CONNECT-END", "fail")
-                raise ConnectionRefusedError(111, "Connection refused")
+                raise _connect_failure(sim.rng)
             if o == "timeout":
                 sim.block(until=sim.now + (timeout or 0))
                 sim.ev("CONNECT-END", "fail")
@@ -165,6 +176,8 @@ def run_threaded(kind, seed, script, rt=3.0, answer=0.1, hold=0.0):
             if d is None:
                 continue
             if tok == "traffic":
+                if sim.rng.random() < 0.35:
+                    feed(d, NODE0_SLEEPS)      # the gateway device (node 0) has a local sensor and uses smart sleep
                 feed(d, REQ)
                 vt_sleep(0.5)
             elif tok == "read-error":
@@ -346,7 +359,7 @@ def run_async(kind, seed, script, rt=3.0, answer=0.1, hold=0.0):
         log.add("CONNECT-BEGIN", o)
         if o == "refuse":
             log.add("CONNECT-END", "fail")
-            raise ConnectionRefusedError(111, "Connection refused")
+            raise _connect_failure(rng)
         if o == "timeout":
             try:
                 await asyncio.sleep(10 ** 6)
@@ -416,6 +429,8 @@ def run_async(kind, seed, script, rt=3.0, answer=0.1, hold=0.0):
                 if d is None:
                     continue
                 if tok == "traffic":
+                    if rng.random() < 0.35:
+                        d.feed(NODE0_SLEEPS)
                     d.feed(REQ)
                 elif tok in ("read-error", "write-error"):
                     d.peer_error(OSError(5, "Input/output error"))
